@@ -1,0 +1,26 @@
+//go:build !verif
+// +build !verif
+
+package raft
+
+// Verification hooks (see verif_on.go). With the "verif" build tag
+// off, every hook is an empty function that inlines to nothing.
+
+func verifStep(r *Raft)                                  {}
+func verifCommit(r *Raft)                                {}
+func verifAppend(s *storage, e *entry)                   {}
+func verifRemoveGTE(s *storage, index uint64)            {}
+func verifClearLog(s *storage)                           {}
+func verifCompact(r *Raft)                               {}
+func verifRPC(r *Raft, rpc *rpc)                         {}
+func verifPersisted(s *storage, term, vote uint64)       {}
+func verifPointR(r *Raft, name string)                   {}
+func verifPointS(s *storage, name string)                {}
+func verifPointSnaps(s *snapshots, name string)          {}
+func verifPointFSM(fsm *stateMachine, name string)       {}
+func verifPointRepl(repl *replication, name string)      {}
+func verifServing(r *Raft, on bool)                      {}
+func verifTransferTarget(l *leader, target uint64)       {}
+func verifSnapTaken(r *Raft, t *snapTaken)               {}
+func verifFSMApplied(fsm *stateMachine, e *entry)        {}
+func verifFSMRestored(fsm *stateMachine, m snapshotMeta) {}
